@@ -13,8 +13,12 @@
 (*   LoopUpdate    - `case update := <-ch` + updateState + isReadyToTerminate + spawnQuery*        *)
 (*   LoopCancelled - `case <-pathCtx.Done()` + terminate                                          *)
 (*   Cancel        - the caller's context ends (any time)                                         *)
-(*   WorkerSend(p) - queryPeer's single `ch <- update` (dial/RPC outcome abstracted; after a      *)
-(*                   cancellation both return, so the send is always reached)                     *)
+(*   WorkerSend(p) - queryPeer's single `ch <- update` (dial/RPC outcome abstracted).  The dial   *)
+(*                   runs under the path context, which terminate() cancels; the RPC runs under   *)
+(*                   the CALLER's context (queryCtx = q.ctx), so after an end-of-lookup           *)
+(*                   termination an RPC in flight ends only by its answer or by the message       *)
+(*                   sender's own timeout (property C11, Sender.tla).  Weak fairness on           *)
+(*                   WorkerSend stands for exactly that assumption.                               *)
 (*   Return        - waitGroup.Wait() is over                                                     *)
 (* Deviation switches (negative controls): ChanCap # Alpha, SpawnIgnoresWaiting,                  *)
 (* WaitsForWorkers = FALSE (the seeded change C03-m6: run returns while workers are in flight).   *)
